@@ -67,8 +67,8 @@ P['C02'] = dict(
     level_text='Same exploration as C01 with the no-loss monitor: no accepted, un-cancelled publish completes with a transport error or try_again at any point, and from every explored state a fault-free suffix (broker reachable, answers everything) completes every request. Retransmission with the same packet identifier is checked by C03\'s monitor.',
     level_note='Bounded liveness only: the suffix is at most 10 rounds; "eventually" beyond it is not claimed. Faults explored: connection reset at quiescent points (with a write in progress failing, or succeeding locally while its bytes are lost), lost acknowledgements, one malformed/unsolicited packet, the broker obtaining a write before the client sees it complete; one or two requests, with and without Receive Maximum 1; the connection dies by reset, by orderly close (eof / broken pipe), by abort, or is noticed by the reader only while a write is in flight (that write ends with operation_aborted when the client closes the old socket). Refused connections and silent brokers are covered in C10/C12.',
     assumptions=_pub_assume,
-    jobs=[dict(name='no_silent_loss', tu='harness/w_pub.cpp', entry='h_pub', engine='B', clock=True, defs={'VK_MODE': 2, 'VK_DROP': 9, 'VK_ACK_VARIANTS': 3}, defs_quick={'VK_STEPS': 5, 'VK_REQS': 1}, defs_thorough={'VK_STEPS': 6, 'VK_REQS': 2}, reach=['reconnected', 'all-requests-completed'], samples=10),
-          dict(name='no_silent_loss_two_requests', tu='harness/w_pub.cpp', entry='h_pub', engine='B', clock=True, defs={'VK_MODE': 2, 'VK_REQS': 2, 'VK_ACK_VARIANTS': 2, 'VK_DROP': 1}, defs_quick={'VK_STEPS': 5}, defs_thorough={'VK_STEPS': 6}, reach=['reconnected', 'all-requests-completed', 'write-lost-in-flight'], samples=10),
+    jobs=[dict(name='no_silent_loss', tu='harness/w_pub.cpp', entry='h_pub', engine='B', clock=True, defs={'VK_MODE': 2, 'VK_ACK_VARIANTS': 3}, defs_quick={'VK_STEPS': 5, 'VK_REQS': 1, 'VK_DROP': 3}, defs_thorough={'VK_STEPS': 6, 'VK_REQS': 2, 'VK_DROP': 9}, reach=['reconnected', 'all-requests-completed'], samples=10),
+          dict(name='no_silent_loss_two_requests', tu='harness/w_pub.cpp', entry='h_pub', engine='B', clock=True, defs={'VK_MODE': 2, 'VK_REQS': 2, 'VK_ACK_VARIANTS': 2}, defs_quick={'VK_STEPS': 5, 'VK_DROP': 0}, defs_thorough={'VK_STEPS': 6, 'VK_DROP': 1}, reach=['reconnected', 'all-requests-completed', 'write-lost-in-flight'], samples=10),
           dict(name='no_silent_loss_throttled', tu='harness/w_pub.cpp', entry='h_pub', engine='B', clock=True, defs={'VK_MODE': 2, 'VK_REQS': 2, 'VK_ACK_VARIANTS': 2, 'VK_RM': 1, 'VK_DROP': 2}, defs_quick={'VK_STEPS': 5}, defs_thorough={'VK_STEPS': 6}, reach=['reconnected', 'all-requests-completed'], samples=10)])
 P['C03'] = dict(
     level_text='Same exploration with the wire-history monitor: DUP=0 on the first transmission, every retransmitted PUBLISH byte-identical to the first except DUP, DUP=1 exactly when an earlier transmission was written successfully, same packet identifier, and no PUBLISH for an exchange once its successful PUBREC was consumed (only PUBREL).',
@@ -111,11 +111,11 @@ P['C06'] = dict(
           dict(name='comparator_B', tu='harness/w_order.cpp', entry='h_cmp', engine='B', clock=True, defs={'VK_PUBS': 3}, defs_quick={'VK_STEPS': 6}, defs_thorough={'VK_STEPS': 8}, reach=['window-order', 'transitive'], samples=10)])
 
 P['C09'] = dict(
-    level_text='On the real mqtt_client, async_disconnect (symbolic reason code, optional Reason String) is called in six client states (never connected with an attempt in progress, with and without a request already queued; connected idle; write in progress; one PUBLISH in flight and one throttled by Receive Maximum 1; write in progress with two requests queued behind), then every order of write completion, write failure, timer expiry (virtual time, earliest deadline first), progress of a pending connection attempt up to its CONNACK, and an inbound QoS 1 PUBLISH (whose PUBACK queues up behind the DISCONNECT) is explored, then time runs until no timer is armed. Monitors: the first packet written after the call (after the write already in progress) is the reference-decodable DISCONNECT with the given code and properties, alone in its gather-write, nothing follows it on that connection; the operation completes exactly once within 5000 ms of virtual time; all other operations and async_run complete; afterwards no write and no connection attempt.',
+    level_text='On the real mqtt_client, async_disconnect (symbolic reason code, optional Reason String) is called in seven client states (never connected with an attempt in progress, with and without a request already queued; CONNECT written and CONNACK outstanding; connected idle; write in progress; one PUBLISH in flight and one throttled by Receive Maximum 1; write in progress with two requests queued behind), then every order of write completion, write failure, timer expiry (virtual time, earliest deadline first), progress of a pending connection attempt up to its CONNACK, and an inbound QoS 1 PUBLISH (whose PUBACK queues up behind the DISCONNECT) is explored, then time runs until no timer is armed. Monitors: the first packet written after the call (after the write already in progress) is the reference-decodable DISCONNECT with the given code and properties, alone in its gather-write, nothing follows it on that connection; the operation completes exactly once within 5000 ms of virtual time; all other operations and async_run complete; afterwards no write and no connection attempt.',
     level_note='Bounds: 5 (quick) / 7 (thorough) steps after the call. "Within 5 seconds" is virtual time of the stub timers. Re-sending a terminal DISCONNECT after try_again is exercised through the write-failure event.',
     assumptions=_pub_assume[:2] + ['timers fire in deadline order (virtual clock); network events take no time'],
     jobs=[dict(name='disconnect', tu='harness/w_disc.cpp', entry='h_disc', engine='B', clock=True, defs_quick={'VK_STEPS': 5}, defs_thorough={'VK_STEPS': 7},
-               reach=['disconnect-on-wire', 'finished', 'write-failed', 'timer-fired', 'never-connected', 'throttled-traffic', 'never-connected-with-queued-request', 'connack-after-call', 'inbound-publish'], samples=10)])
+               reach=['disconnect-on-wire', 'finished', 'write-failed', 'timer-fired', 'never-connected', 'throttled-traffic', 'never-connected-with-queued-request', 'connack-after-call', 'inbound-publish', 'connack-handlers-left-queued', 'timers-tie', 'handshake-in-progress'], samples=10)])
 
 P['C10'] = dict(
     level_text='On the real mqtt_client with a symbolic configuration (client id, optional user name/password, optional Will with QoS/RETAIN/Will Delay, keep-alive, optional Session Expiry and Receive Maximum) and a request queued before any connection exists: up to 3 broker attempts over the list "a,b", each with every outcome (resolve ok with 1 or 2 endpoints / failing / timing out; per endpoint: success, TCP refused, CONNACK with any listed failure code, three kinds of malformed reply, silence until the 5 s timer; arbitrary reply bytes are the handshake job of C19). Monitors: first write of each connection is exactly one CONNECT that the reference decoder maps back to the configuration with Clean Start 0; nothing else is written and no queued request completes before a successful CONNACK; endpoints then brokers are tried in order; resolve and handshake are raced against a 5000 ms timer; a pause of 500..16500 ms occurs only at wrap-around. Kernels: exponential_backoff::generate for every 64-bit generator state and 0-6 earlier calls; broker-list parsing of generated well-formed lists.',
